@@ -89,7 +89,9 @@ impl Uni {
             (nm("host2.example.test."), Ttl::from_secs(30), a("192.0.2.72")),
             (nm("mail.example.test."), Ttl::from_secs(1200), ZoneRecordData::Mx(Mx::new(5, nm("mx.other.test.")))),
         ];
-        recs.truncate(22);
+        recs.push((nm("ns2.sub.example.test."), Ttl::from_secs(7200), a("192.0.2.61")));
+        recs.push((nm("sub.example.test."), Ttl::from_secs(7200), ZoneRecordData::Ns(Ns::new(nm("ns2.sub.example.test.")))));
+        recs.truncate(24);
         let mut index = HashMap::new();
         for (i, (o, _, d)) in recs.iter().enumerate() {
             index.insert(key(&o.to_string(), d.rtype(), &d.to_string()), i as u32);
@@ -355,6 +357,42 @@ fn build_zone(uni: &Uni, soa: Option<u32>, keys: &BTreeSet<u32>) -> Zone {
     b.build()
 }
 
+/// The same content, stored the way a zone loaded from a zone file stores it: the delegation at
+/// `sub` as a zone cut with its in-domain glue (owned by the name server names, not by the cut),
+/// the CNAME as a CNAME node.  Only ZoneBuilder can make these; the zone walk must report them
+/// under their own owner names.
+fn build_zone_special(uni: &Uni, soa: Option<u32>, keys: &BTreeSet<u32>) -> Zone {
+    let sub = nm("sub.example.test.");
+    let ns_keys: Vec<u32> = keys.iter().cloned().filter(|k| { let (o, _, d) = uni.concrete(AR::Other(*k)); *k < 100 && o == sub && d.rtype() == Rtype::NS }).collect();
+    let glue_keys: Vec<u32> = if ns_keys.is_empty() { vec![] } else {
+        keys.iter().cloned().filter(|k| { let (o, _, d) = uni.concrete(AR::Other(*k)); *k < 100 && o.ends_with(&sub) && o != sub && matches!(d.rtype(), Rtype::A | Rtype::AAAA) }).collect() };
+    let cname_keys: Vec<u32> = keys.iter().cloned().filter(|k| { let (_, _, d) = uni.concrete(AR::Other(*k)); *k < 100 && d.rtype() == Rtype::CNAME }).collect();
+    let mut plain = keys.clone();
+    for k in ns_keys.iter().chain(glue_keys.iter()).chain(cname_keys.iter()) { plain.remove(k); }
+    let mut b = ZoneBuilder::new(uni.apex.clone(), Class::IN);
+    let mut sets: BTreeMap<(String, u16), (StoredName, Rrset)> = BTreeMap::new();
+    let mut all: Vec<AR> = plain.iter().map(|k| AR::Other(*k)).collect();
+    if let Some(s) = soa { all.push(AR::Soa(s)); }
+    for a in all {
+        let (o, t, d) = uni.concrete(a);
+        let e = sets.entry((o.to_string(), d.rtype().to_int())).or_insert_with(|| (o.clone(), Rrset::new(d.rtype(), t)));
+        e.1.push_data(d);
+    }
+    for (_, (o, rrset)) in sets { b.insert_rrset(&o, SharedRrset::new(rrset)).unwrap(); }
+    if !ns_keys.is_empty() {
+        let (_, t, _) = uni.concrete(AR::Other(ns_keys[0]));
+        let mut ns = Rrset::new(Rtype::NS, t);
+        for k in &ns_keys { ns.push_data(uni.concrete(AR::Other(*k)).2); }
+        let glue: Vec<domain::zonetree::StoredRecord> = glue_keys.iter().map(|k| stored(uni, AR::Other(*k))).collect();
+        b.insert_zone_cut(&sub, SharedRrset::new(ns), None, glue).unwrap();
+    }
+    for k in cname_keys {
+        let (o, t, d) = uni.concrete(AR::Other(k));
+        b.insert_cname(&o, domain::zonetree::SharedRr::new(t, d)).unwrap();
+    }
+    b.build()
+}
+
 fn apply_diff(before: &Content, diff: &InMemoryZoneDiff) -> Content {
     let mut c = before.clone();
     for ((o, t), rrset) in diff.removed.iter() {
@@ -562,7 +600,7 @@ fn unchained_case(cx: &mut Ctx, r: &mut Rng, chain: &[Version], which: &str, cut
         &format!("status {:?}, updater {} finished={}: readers now see {:?}", st, ap.result, ap.fin, ap.final_content.get(&("example.test".to_string(), "SOA".to_string()))));
     // whatever happens, readers must only ever see versions of the chain that were reached by chaining diffs
     let mut versions: Vec<Content> = vec![spec_content(uni, Some(z0.soa), &z0.keys)];
-    if which != "base" { versions.push(spec_content(uni, Some(chain[1].soa), &chain[1].keys)); }
+    if which != "base" { for v in &chain[1..chain.len() - 1] { versions.push(spec_content(uni, Some(v.soa), &v.keys)); } }
     cx.chk(versions.contains(&ap.final_content) || (st == St::Done && ap.fin), "partial_version_visible", &case,
         &format!("readers see {:?}", ap.final_content));
 }
@@ -947,7 +985,8 @@ fn sender_case(cx: &mut Ctx, chain: &[Version], mode: u8, compat: bool, recv_sta
     let label = format!("sender:{}{}", ["axfr", "ixfr", "fallback"][mode as usize], if compat { ":compat" } else { "" });
     let case0 = format!("{} chain={:?} new={}", label, chain.iter().map(|v| v.soa).collect::<Vec<_>>(), new.soa);
     cx.out.begin(&case0);
-    let szone = build_zone(uni, Some(chain[0].soa), &chain[0].keys);
+    // a sender zone that does not change is stored with zone cuts / CNAME nodes (as loaded from a zone file)
+    let szone = if chain.len() == 1 { build_zone_special(uni, Some(chain[0].soa), &chain[0].keys) } else { build_zone(uni, Some(chain[0].soa), &chain[0].keys) };
     let rt = cx.rt;
     let built = catch_mut(|| rt.block_on(async {
         let mut diffs = vec![];
@@ -980,7 +1019,7 @@ fn sender_case(cx: &mut Ctx, chain: &[Version], mode: u8, compat: bool, recv_sta
         let mut stream = match res { Ok(ControlFlow::Break(s)) => s, Ok(ControlFlow::Continue(())) => return Err("not handled".to_string()), Err(rc) => return Err(format!("rcode {}", rc)) };
         let mut wire: Vec<Vec<u8>> = vec![];
         loop {
-            match tokio::time::timeout(std::time::Duration::from_secs(10), stream.next()).await {
+            match Ok::<_, ()>(stream.next().await) {
                 Err(_) => return Err("sender stream timed out".to_string()),
                 Ok(None) => break,
                 Ok(Some(Err(e))) => return Err(format!("service error {:?}", e)),
@@ -995,7 +1034,13 @@ fn sender_case(cx: &mut Ctx, chain: &[Version], mode: u8, compat: bool, recv_sta
         Err(e) => { cx.chk(false, "panic_xfr", &case0, &format!("sender side panicked: {}", e)); return; }
     };
     let (sender_content, _) = walk_zone(uni, &szone);
-    cx.chk(sender_content == spec_content(uni, Some(new.soa), &new.keys), "sender_failed", &case0, "the sender zone is not at the last version of the chain");
+    if chain.len() == 1 {
+        // a zone that was only built: what its walk reports is what an AXFR sends
+        cx.chk(sender_content == spec_content(uni, Some(new.soa), &new.keys), if mode == 0 { "axfr_content_mismatch" } else { "ixfr_content_mismatch" }, &case0,
+            &format!("the sender's zone walk reports {:?} for a zone built from {:?}", sender_content, spec_content(uni, Some(new.soa), &new.keys)));
+    } else {
+        cx.chk(sender_content == spec_content(uni, Some(new.soa), &new.keys), "sender_failed", &case0, "the sender zone is not at the last version of the chain");
+    }
     // receiver
     let words: Option<Vec<String>> = wire.iter().map(|w| words_of_wire(uni, w)).collect();
     let run = run_interp(uni, &wire);
@@ -1036,6 +1081,9 @@ fn sender_case(cx: &mut Ctx, chain: &[Version], mode: u8, compat: bool, recv_sta
     // [SOA, SOA] under an IXFR question is an empty IXFR, not an AXFR of an empty zone
     if !(mode == 2 && new.keys.is_empty()) {
     cx.chk(ap.final_content == sender_content, cls, &short, &format!("receiver {:?} sender {:?}", ap.final_content, sender_content));
+    // and against the content the sender zone was built from (independent of the sender's zone walk)
+    let want = spec_content(uni, Some(new.soa), &new.keys);
+    cx.chk(ap.final_content == want, cls, &short, &format!("receiver {:?}, the sender zone holds {:?}", ap.final_content, want));
     }
     cx.chk(ap.changed_outside_commit.is_none(), "partial_version_visible", &short, "readers saw a change outside a commit");
     // the packaging the sender chose must be one the receiver accepts
@@ -1089,7 +1137,7 @@ fn sender_race_case(cx: &mut Ctx, old: &Version, new: &Version, mode: u8, recv_s
         drop(permit);
         let mut wire: Vec<Vec<u8>> = vec![];
         loop {
-            match tokio::time::timeout(std::time::Duration::from_secs(10), stream.next()).await {
+            match Ok::<_, ()>(stream.next().await) {
                 Err(_) => return Err("sender stream timed out".to_string()),
                 Ok(None) => break,
                 Ok(Some(Err(e))) => return Err(format!("service error {:?}", e)),
@@ -1184,7 +1232,7 @@ fn decision_case(cx: &mut Ctx, place: u64, relevant: u8, qtype: u16, qser: Optio
         };
         let mut msgs: Vec<Vec<u8>> = vec![];
         loop {
-            match tokio::time::timeout(std::time::Duration::from_secs(10), stream.next()).await {
+            match Ok::<_, ()>(stream.next().await) {
                 Err(_) => return Err("timeout".to_string()),
                 Ok(None) => break,
                 Ok(Some(Err(e))) => return Err(format!("service error {:?}", e)),
@@ -1603,6 +1651,11 @@ fn main() {
         sender_case(&mut cx, &[va.clone(), vb.clone(), vc.clone()], 1, false, &va, 3);
         sender_case(&mut cx, &[va.clone(), vb.clone()], 2, false, &va, 0);
         sender_case(&mut cx, &[va.clone(), vb.clone()], 2, true, &va, 1);  // compat mode must not apply to IXFR questions
+        // a delegation stored as a zone cut with in-domain glue under other owner names, a CNAME node
+        let vz = Version { soa: 88, keys: ks(&[0, 1, 5, 16, 17, 18, 22, 23]) };
+        for (i, (mode, compat)) in [(0u8, false), (0, true), (2, false), (2, true)].into_iter().enumerate() {
+            sender_case(&mut cx, &[vz.clone()], mode, compat, &other, i as u64);
+        }
         // big zones: several messages (64 KiB each)
         let bulk = |from: u32, n: u32| -> BTreeSet<u32> { (0..n).map(|i| 1000 + from + i).chain([0u32, 1, 5]).collect() };
         let ba = Version { soa: 90, keys: bulk(0, 420) };
@@ -1634,7 +1687,7 @@ fn main() {
             let mode = (i % 3) as u8;
             let compat = fr.chance(1, 3);
             let start = if mode == 0 { Version { soa: 2 * fr.below(500) as u32, keys: rand_keys(&mut fr, &uni, 8) } } else { base };
-            if mode == 0 { let last = chain.last().unwrap().clone(); sender_case(&mut cx, &[last], 0, compat, &start, fr.below(4)); }
+            if mode == 0 || (mode == 2 && fr.chance(1, 2)) { let mut last = chain.last().unwrap().clone(); if fr.chance(1, 2) { for k in [17u32, 18, 22] { last.keys.insert(k); } } let st2 = if mode == 0 { start.clone() } else { last.clone() }; sender_case(&mut cx, &[last], mode, compat, &st2, fr.below(4)); }
             else { sender_case(&mut cx, &chain, mode, compat, &start, fr.below(4)); }
         }
     }
